@@ -128,6 +128,9 @@ func runCorpus(p part, c *ctx) {
 					}
 					pc += snap.Size
 				}
+				if mode == 0 {
+					cc.sequencePass() // the kernel's instructions back to back, as the simulator decodes them
+				}
 				if ok {
 					out.count("corpus_kernels_consumed_exactly_mode_"+[]string{"own", "other"}[mode], 1)
 					if mode == 0 {
